@@ -74,7 +74,20 @@ func RunCopies(args []string) int {
 	defer f.Close()
 	w := bufio.NewWriterSize(f, 1<<20)
 	defer w.Flush()
-	s := sess.New(nil)
+	// the recovery hook is handed a line as well: it edits it (as a scrubbing hook would), which must not show anywhere
+	s := sess.New(func(c *client.Config) {
+		c.Recover = func(conn *client.Conn, l *client.Line) {
+			if l != nil {
+				for i := range l.Args {
+					l.Args[i] = "scrubbed-by-the-recovery-hook"
+				}
+				for k := range l.Tags {
+					l.Tags[k] = "scrubbed"
+				}
+			}
+			recover()
+		}
+	})
 	defer s.Close()
 	var mu sync.Mutex
 	cur := map[string][]inv{} // raw -> invocations
